@@ -354,6 +354,17 @@ impl DcpsDomainParticipant {
             }
         }
 
+        if self
+            .domain_participant
+            .content_filtered_topic_list
+            .iter()
+            .any(|x| x.related_topic_name == topic.topic_name)
+        {
+            return Err(DdsError::PreconditionNotMet(
+                "Topic still used by a content filtered topic".to_string(),
+            ));
+        }
+
         self.domain_participant
             .locally_created_topic_list
             .retain(|x| x.topic_name != topic_name);
@@ -544,6 +555,8 @@ impl DcpsDomainParticipant {
                 self.announce_deleted_data_reader(data_reader, runtime);
             }
         }
+
+        self.domain_participant.content_filtered_topic_list.clear();
 
         self.domain_participant
             .locally_created_topic_list
